@@ -343,6 +343,7 @@ GEN_FAMILIES = {
     "G1b_e": ("MC_Gen_G1b_e.cfg", 600, None),
     "G1c": ("MC_Gen_G1c.cfg", None, None),
     "G1d": ("MC_Gen_G1d.cfg", 500, None),
+    "G1e": ("MC_Gen_G1e.cfg", 300, None),
     "G2p_2": ("MC_Gen_G2p_2.cfg", 900, None),
     "G2p_3s": ("MC_Gen_G2p_3s.cfg", 400, 0),
     "G2p_3": ("MC_Gen_G2p_3.cfg", 0, 8000),
